@@ -223,7 +223,7 @@ func runC12(c run.Ctx) *core.CaseResult {
 			gf := hookrt.NewGate("store.flush.after-commit", 1, gateT)
 			rt.AddGate(gf)
 			// first some work for the flush to commit
-			s.Put(append([]byte{}, u.Keys[3].Raw...), gen.Value(999, 30))
+			s.Put(append([]byte{}, u.Keys[len(u.Keys)-1].Raw...), gen.Value(999, 30))
 			fdone := make(chan struct{})
 			go func() { flush(); close(fdone) }()
 			if !gf.WaitArrived(gateT) {
